@@ -10,10 +10,11 @@ OUT=/verif/seeded/$NAME; mkdir -p $OUT
 cd $WT || exit 2
 echo "== mutated tree: workspace tests (demo expected to fail)"
 cargo test --workspace --no-fail-fast --offline > $OUT/mutated_tests.log 2>&1
+if [ -n "${FEATURES:-}" ]; then cargo test --offline --features $FEATURES --test seeded_demo > $OUT/mutated_demo.log 2>&1; grep -E "^test result|FAILED" $OUT/mutated_demo.log | head -5; git diff Cargo.toml > $OUT/demo_cargo_toml.diff; fi
 grep -E "^test result|FAILED|failed" $OUT/mutated_tests.log | sort | uniq -c | head -20
 echo "== unmutated tree: demo expected to pass"
 git apply -R seeded_patch.diff || { echo "cannot reverse patch"; exit 2; }
-cargo test --offline --test seeded_demo > $OUT/clean_demo.log 2>&1; echo "clean demo rc=$?"
+cargo test --offline ${FEATURES:+--features $FEATURES} --test seeded_demo > $OUT/clean_demo.log 2>&1; echo "clean demo rc=$?"
 grep -E "^test result" $OUT/clean_demo.log
 git apply seeded_patch.diff
 cp seeded_patch.diff $OUT/patch.diff; cp tests/seeded_demo.rs $OUT/seeded_demo.rs; cp seeded_meta.json $OUT/agent_meta.json
